@@ -245,7 +245,7 @@ func cfgForScript(c cfgSpec, s script) (runCfg, bool) {
 		} else {
 			rc.CChunk = uint64(s.N)
 			if rc.Res > 0 {
-				rc.CChunk += 2 // room for the resource trailer
+				rc.CChunk += 4 // room for the resource trailer
 			}
 		}
 		return rc, true
